@@ -366,7 +366,8 @@ def run(pid, tier, seed, replay=None):
             samples.append(c)
     samples = samples[:N_SAMPLES + 3]
 
-    fdir = os.path.join(ROOT, "failures", pid)
+    outroot = os.environ.get("VERIF_OUT_DIR") or ROOT   # self-test runs keep /verif/evidence clean
+    fdir = os.path.join(outroot, "failures", pid)
     if os.path.isdir(fdir):
         for fn in os.listdir(fdir):
             os.unlink(os.path.join(fdir, fn))
@@ -396,8 +397,8 @@ def run(pid, tier, seed, replay=None):
             violation_signatures=sorted(failures),
             harness_errors=harness_errors[:5]),
         assumptions=list(prop.ASSUMPTIONS))
-    os.makedirs(os.path.join(ROOT, "evidence"), exist_ok=True)
-    with open(os.path.join(ROOT, "evidence", "%s.json" % pid), "w") as f:
+    os.makedirs(os.path.join(outroot, "evidence"), exist_ok=True)
+    with open(os.path.join(outroot, "evidence", "%s.json" % pid), "w") as f:
         json.dump(ev, f, indent=1, ensure_ascii=True, sort_keys=True)
         f.write("\n")
 
